@@ -53,6 +53,10 @@ impl Read for ScriptedReader<'_> {
                 self.failed = Some(k);
                 // the payload names the failing call, so that "returned as THAT error" can be told from "an error of
                 // the same kind"
+                if call % 4 == 3 {
+                    // a reader stacked on another generator: the payload is one of the crate's own error values
+                    return Err(io::Error::new(k, ssdeep::GeneratorError::FixedSizeMismatch));
+                }
                 return Err(io::Error::new(k, format!("injected fault at read call {}", call)));
             }
             Some(Answer::Short(n)) => n,
@@ -121,7 +125,7 @@ fn run_one_unguarded(len: usize, policy: usize, script: &[(usize, Answer)], decl
     // identity of the I/O error: kind (below) and payload
     if let (Some(_), Err(GeneratorOrIOError::IOError(e))) = (rd.failed, &res) {
         let call = rd.calls - 1 - rd.calls_after_end;
-        let want = format!("injected fault at read call {}", call);
+        let want = if call % 4 == 3 { format!("{}", ssdeep::GeneratorError::FixedSizeMismatch) } else { format!("injected fault at read call {}", call) };
         let payload_ok = e.get_ref().map(|p| p.to_string() == want).unwrap_or(false);
         if !payload_ok || e.to_string() != want {
             return Err(format!("len={} policy={} script={:?} declared={:?}: the I/O error that came back is not the reader's error (message {:?}, payload {:?}; the reader failed with {:?})", len, policy, script, declared, e.to_string(), e.get_ref().map(|p| p.to_string()), want));
